@@ -64,6 +64,8 @@ def md_block(tc):
         cfg.append(f"timeout: {_dur(tc['t'])}")
     if tc["det"]:
         cfg.append("detached: true")
+    if tc.get("wait", 0) > 0:
+        cfg.append(f"wait: {_dur(tc['wait'])}")
     if tc["skip"] != NONE:
         cfg.append(f"skip_document_code: {tc['skip']}")
     if tc["stream"] != "stdout":
@@ -129,7 +131,8 @@ def materialise(sc, root):
                 front.append("prepend: [p1.md]")
             if sc["app"]:
                 front.append("append: [a1.md]")
-        name = f"d{i + 1}." + ("md" if doc["fmt"] == "md" else "t")
+        # names are chosen so that the order given on the command line is NOT the lexicographic order
+        name = f"{'zyxw'[i]}-d{i + 1}." + ("md" if doc["fmt"] == "md" else "t")
         path = os.path.join(docs_dir, name)
         with open(path, "wb") as f:
             f.write(render_doc(doc, doc["tests"], front))
